@@ -431,6 +431,13 @@ class C15(QueryFamily):
                    "against the model")
 
     def gen(self, rng, i, tier):
+        if rng.random() < 0.25:
+            # projections over deeply nested and_/or_ (the de-duplication of rows decides what is passed on) with random
+            # sub-conditions wrapped as nested queries: their operators key their duplicate checks on what the nested query selects
+            # AND on what the enclosing operators require
+            c = gen_query.gen_case_dedup(rng, tier)
+            c['cond'] = gen_query.wrap_subs(rng, c['cond'], p=0.4)
+            return c
         return gen_query.gen_case_sub(rng, tier)
 
     def nontrivial(self, case, io):
